@@ -356,22 +356,22 @@ func (r *Realm) parseLines(name string, lines []string) (err error) {
 		}
 		if strings.Contains(line, "{") {
 			c++
-			if ignore {
-				continue
-			}
+			continue
 		}
 		if strings.Contains(line, "}") {
 			c--
 			if c < 0 {
 				return InvalidErrorf("unpaired curly brackets")
 			}
-			if ignore {
-				if c < 1 {
-					c = 0
-					ignore = false
-				}
-				continue
+			if ignore && c < 1 {
+				c = 0
+				ignore = false
 			}
+			continue
+		}
+		if c > 0 {
+			// relations inside a nested block are not relations of the realm itself
+			continue
 		}
 
 		p := strings.Split(line, "=")
